@@ -38,6 +38,18 @@ def random_keys(rng, kind, cap, depth, n):
     return lines
 
 
+def huge_history(rng, kind, cap, depth, nlines):
+    """a history buffer of more than 2 GiB (cap * depth > 2^31, byte offsets that do not fit 31 bits): nlines short lines are entered, the
+    last ones are recalled with Up and one is executed"""
+    lines = ["R %s %d %d" % (kind, cap, depth)]
+    for i in range(nlines):
+        lines += ["Key %d" % ord(ch) for ch in "c%d" % i] + ["Key 13"]
+    for _ in range(40):
+        lines += ["Key 27", "Key 91", "Key 65"]
+    lines.append("Key 13")
+    return lines
+
+
 def big_history(rng, kind, cap, depth):
     """a history buffer of more than 64 KiB (cap * depth): more distinct lines than fit below 2^16 bytes are entered, then the
     whole history is walked with Up and back with Down, and an old line is executed"""
@@ -105,6 +117,8 @@ def check(ctx):
     for i, (cap, depth) in enumerate([(1024, 80), (300, 250), (6, 255), (6, 256), (6, 257)] + ([(4096, 20), (70, 1000), (8, 512), (7, 300)] if ctx.thorough else [])):
         rnd += big_history(ctx.rng, ["c", "xx"][i % 2], cap, depth)
         rnd += big_history(ctx.rng, ["xx", "c"][i % 2], cap, depth)
+    # a history of 2.25 GiB (capacity 2^20, depth 2304): slots beyond offset 2^31 are written and recalled
+    huge = huge_history(ctx.rng, "c", 2 ** 20, 2304, 2100) + (huge_history(ctx.rng, "xx", 2 ** 20, 2304, 2100) if ctx.thorough else [])
     # the cursor-left sequence for every magnitude of the column count (lines longer than 2^8 / 2^15 / 2^16 columns: the terminals
     # themselves are only driven to 4096 columns, the judge being linear in the line length per key)
     rnd.append("R sl 4")
@@ -112,7 +126,8 @@ def check(ctx):
         rnd.append("VtLeft %d" % nn)
     t1 = ctx.drive(drv, script, "term_cover")
     t2 = ctx.drive(drv, rnd, "term_random")
-    bad = ctx.judge("LineEditTrace", [t1, t2])
+    t3 = ctx.drive(drv, huge, "term_huge", timeout=1500, par=2, lines_per_proc=1000)
+    bad = ctx.judge("LineEditTrace", [t1, t2, t3])
     for b in bad: b["driver"] = "drv_term"
     ctx.report(bad)
     ctx.assumptions += [
